@@ -89,33 +89,45 @@ func checkC08(w *World, r *Report) {
 		fd, _ := w.FuncDecl(aq)
 		tw := w.Func("parse", "trimWhitespace")
 		okD, okS := false, false
-		ast.Inspect(fd.Body, func(n ast.Node) bool {
-			is, ok := n.(*ast.IfStmt)
-			if !ok {
-				return true
-			}
-			be, ok := ast.Unparen(is.Cond).(*ast.BinaryExpr)
-			if !ok || be.Op != token.EQL {
-				return true
-			}
-			if s, ok := ConstStr(p, be.Y); !ok || s != "\"" {
-				return true
-			}
-			okD = len(allCallsTo(p, is.Body, tw)) == 1
-			if eb, ok := is.Else.(*ast.BlockStmt); ok {
-				okS = len(allCallsTo(p, eb, tw)) == 0
-				// raw token value used
-				raw := false
-				ast.Inspect(eb, func(x ast.Node) bool {
-					if se, ok := x.(*ast.SelectorExpr); ok && se.Sel.Name == "val" {
-						raw = true
+		if af := w.SSAFunc(aq); af != nil && len(ssaLoops(af)) == 0 {
+			sym := NewSym(w)
+			itemString, _ := pkgConstInt(w, "parse", "itemString")
+			isVal := func(v ssa.Value) bool { return loadedFieldName(v) == "val" }
+			classify := func(a *pcAtom) string {
+				if a.subj != "" && a.set.equal(isetOf(itemString)) {
+					if bo, ok := a.v.(*ssa.BinOp); ok {
+						for _, side := range []ssa.Value{bo.X, bo.Y} {
+							if loadedFieldName(side) == "typ" {
+								return "string"
+							}
+						}
 					}
-					return true
-				})
-				okS = okS && raw
+				}
+				if a.op == token.EQL && a.x != nil {
+					for _, pair := range [][2]ssa.Value{{a.x, a.y}, {a.y, a.x}} {
+						if k, ok := pair[1].(*ssa.Const); ok && k.Value != nil && k.Value.Kind() == constant.String && constant.StringVal(k.Value) == "\"" && isVal(pair[0]) {
+							return "dq"
+						}
+					}
+				}
+				return ""
 			}
-			return true
-		})
+			for _, b := range af.Blocks {
+				for _, in := range b.Instrs {
+					switch x := in.(type) {
+					case *ssa.Call:
+						if x.Call.StaticCallee() != nil && x.Call.StaticCallee().Object() == types.Object(tw) {
+							okD = pcCompare(sym.PathCond(af.Blocks[0], b, nil), classify, func(env map[string]bool) bool { return env["string"] && env["dq"] }) == ""
+						}
+					case *ssa.BinOp:
+						// the raw token text concatenated with what follows
+						if x.Op == token.ADD && isVal(x.X) {
+							okS = pcCompare(sym.PathCond(af.Blocks[0], b, nil), classify, func(env map[string]bool) bool { return env["string"] && !env["dq"] }) == ""
+						}
+					}
+				}
+			}
+		}
 		r.Check(okD, "R08.3", "double-quoted piece", fd.Pos(), "trimWhitespace(piece) iff closing quote is \"", "double-quoted text is not passed through escape substitution / indentation stripping")
 		r.Check(okS, "R08.3", "single-quoted piece", fd.Pos(), "verbatim", "single-quoted text is not taken verbatim")
 		a := w.Method("parse", "Tree", "argument")
